@@ -221,6 +221,10 @@ HOSTILE_ARGS = [
     ("plain-object", "[object()]"), ("lambda", "[lambda: 1]"), ("range", "[range(3)]"), ("bytearray", "[bytearray(b'ab')]"), ("complex", "[2+3j]"),
     ("ellipsis", "[...]"), ("frozenset", "[frozenset({1, 2})]"), ("empty-set", "[set()]"), ("nested-inf", "[[float('inf'), {'k': float('nan')}]]"),
     ("date", "[__import__('datetime').date(2020, 1, 2)]"), ("generator", "[(i for i in range(3))]"), ("iterator", "[iter([1, 2])]"),
+    # values that are falsy (empty) without being builtin literals
+    ("empty-deque", "[__import__('collections').deque()]"), ("decimal-zero", "[__import__('decimal').Decimal(0)]"),
+    ("fraction-zero", "[__import__('fractions').Fraction(0)]"), ("empty-counter", "[__import__('collections').Counter()]"),
+    ("empty-containers", "[(), [], {}, set(), frozenset(), bytearray(), '', b'', 0, 0.0, None, False]"),
     ("exception-object", "[ValueError('v')]"), ("module", "[__import__('math')]"), ("memoryview", "[memoryview(b'ab')]"),
     ("huge-int", "[10 ** 5000]"), ("huge-int-in-a-list", "[[1, 10 ** 4400]]"), ("very-long-str", "['z' * 100000]"),
 ]
@@ -483,7 +487,7 @@ def special_programs():
                     [(name, ['[5]', '[7]'])]))
     out.append(('own-variable-named-like-a-replaced-builtin', "input = 5\nopen = [1, 2]\nprint(input, open)\ndef total():\n    return input + len(open)\n",
                 [('total', ['[]', '[]'])]))
-    for depth in (2, 5, 7, 8, 9, 12, 30):
+    for depth in (2, 5, 7, 8, 9, 12, 30, 63, 64, 70, 150, 400):
         out.append(('failure-under-%d-frames' % depth,
                     "def dig(n):\n    if n == 0:\n        return [1, 2][5]\n    below = dig(n - 1)\n    return below + 1\nprint('start')\ndig(%d)\n" % depth,
                     [('dig', ['[%d]' % depth])]))
@@ -519,6 +523,11 @@ def special_programs():
                 "def first(v):\n    return [type(x).__name__ for x in v][:1]\nprint(set, range, frozenset, bytearray)\n",
                 [('kind', ['[set()]', '[{1, 2}]', '[range(3)]', '[frozenset([1])]', "[bytearray(b'ab')]", '[{1: set()}]', '[[range(2)]]', '[(frozenset(), 1)]']),
                  ('first', ['[[set()]]', '[[range(1)]]', "[{'k': bytearray(b'')}]"])]))
+    out.append(('falsy-instances-and-shared-empties', "class Bag:\n    def __init__(self):\n        self.items = []\n    def __len__(self):\n        return len(self.items)\n"
+                "class Off:\n    def __bool__(self):\n        return False\ndef kind(v):\n    return type(v).__name__\ndef fill(rows):\n    rows[0].append(1)\n    return [len(r) for r in rows]\n"
+                "def both(a, b):\n    a.append(1)\n    return len(b)\nempty_bag = Bag()\nprint(kind(empty_bag))\n",
+                [('kind', ["ns:[Bag()]", "ns:[Off()]", "ns:[empty_bag]", "ns:[[Bag()]]"]), ('fill', ["[[[]] * 3]", "(lambda e: [[e, e, e]])([])", "[[[], [], []]]", "(lambda e: [(e, e)])({})"]),
+                 ('both', ["(lambda e: [e, e])([])", "[[], []]"])]))
     out.append(('any-value-passed-through', "def ident(v):\n    return v\ndef kind(v):\n    return type(v).__name__\ndef both(v, w=None):\n    return [kind(v), kind(w)]\n",
                 [('ident', [a for _, a in HOSTILE_ARGS]), ('kind', [a for _, a in HOSTILE_ARGS]), ('both', ["[object(), 5]", "[3, len]"])]))
     out.append(('failure-in-a-method-chain', "class Node:\n    def __init__(self, nxt):\n        self.nxt = nxt\n    def depth(self):\n        if self.nxt is None:\n"
@@ -616,6 +625,37 @@ def _calls_with_inputs_history(ctx, case):
     ctx.case('I:' + repr(case['steps']))
 
 
+def check_environment_inputs(ctx):
+    """the inputs handed to an environment (the way a platform passes its input box along) are the inputs of the program's run:
+    same printed text as plain CPython fed those inputs"""
+    from pedal.core.commands import clear_report
+    from pedal.sandbox import commands as sbx
+    from pedal.environments.blockpy import BlockPyEnvironment
+    from pedal.environments.gradescope import GradeScopeEnvironment
+    src = "name = input('Name? ')\nage = input('Age? ')\nprint('Hello', name, '(' + age + ')')\n"
+    for env_name, Env in (('blockpy', BlockPyEnvironment), ('gradescope', GradeScopeEnvironment)):
+        for given in (['Ada Lovelace', '36'], ['Ada', '36'], 'Ada Lovelace', '36', ['  padded  ', 'x y z'], ['only one']):
+            as_list = [given] if isinstance(given, str) else list(given)
+            case = {'scenario': 'environment-inputs', 'environment': env_name, 'inputs': given, 'src': src}
+            try:
+                _, ref_out, ref_exc, _, _ = reference_run(src, as_list)
+                clear_report()
+                with contextlib.redirect_stdout(io.StringIO()):
+                    Env(main_code=src, inputs=given, skip_tifa=True)
+                out = sbx.get_raw_output()
+                e = sbx.get_exception()
+            except BaseException as ex:
+                ctx.violation('C06|environment-with-inputs-raised|%s|%s' % (env_name, type(ex).__name__), case, traceback.format_exc()[-400:])
+                continue
+            ctx.count('environment_runs_with_inputs')
+            ctx.case('envinputs:%s:%r' % (env_name, given))
+            want_lines = [l for l in ref_out.split('\n') if l.startswith('Hello')]
+            got_lines = [l for l in (out or '').split('\n') if l.startswith('Hello')]
+            if e is not None or got_lines != want_lines:
+                ctx.violation('C06|output-differs-with-the-inputs-given-to-the-environment|%s|%s' % (env_name, 'one-string' if isinstance(given, str) else 'list'), case,
+                              'CPython prints %r; through the environment %r (exception %r)' % (want_lines, got_lines, e))
+
+
 def run(ctx):
     from gen.programs import gen_program
     rng = ctx.rng
@@ -625,6 +665,8 @@ def run(ctx):
         check_results_passed_back(ctx)
     if ctx.shard % 4 == 1:
         check_calls_with_inputs(ctx)
+    if ctx.shard % 8 == 2:
+        check_environment_inputs(ctx)
     specials = special_programs()
     for name, src, functions in specials[ctx.shard % 3::3]:
         ctx.seen('special_programs', name)
@@ -666,6 +708,8 @@ def run(ctx):
 def replay(ctx, case):
     if case.get('scenario') == 'result-passed-back':
         return check_results_passed_back(ctx)
+    if case.get('scenario') == 'environment-inputs':
+        return check_environment_inputs(ctx)
     if case.get('scenario') == 'calls-with-inputs':
         return _calls_with_inputs_history(ctx, case)
     case = dict(case)
